@@ -132,7 +132,7 @@ def e2e_case(runner, r, oc, reqs, pend, kinds, regens, big=False):
             oc.samples.append(dict(model=model, outdir=outdir_arg, cwd=cwd, edited={k: sorted(v) for k, v in edits.items()}, regenerations=regens))
 
 
-def fresh_process_case(r, oc):
+def fresh_process_case(r, oc, directed=False):
     """the build script run again: every (re)generation in a fresh interpreter with its own hash seed"""
     import subprocess
     import sys
@@ -143,6 +143,15 @@ def fresh_process_case(r, oc):
         p = subprocess.run([sys.executable, worker], input=json.dumps(dict(model=model, outdir=out, cwd="/")), text=True, capture_output=True, env=env, timeout=300)
         return p.returncode, p.stderr[-400:]
     model = genlib.rand_model(r, ("sm", "sm", "sm", "proto", "uml"))
+    if directed:
+        # a table with several final states (only ever a target): whatever collects them must not expose a hash order
+        model = genlib.rand_sm_model(r, r.choice(["cs", "py", "cpp"]))
+        used = {c for row in model["tt"] for c in (row[0], row[2])}
+        finals = [n_ for n_ in ["StateDone", "StateFailed", "StateAborted", "StateGone", "StateExpired"] if n_ not in used][:r.choice([2, 3, 4, 5])]
+        srcs = sorted({row[0] for row in model["tt"]})
+        evs = sorted({row[1] for row in model["tt"] if row[1] not in ("", "None", "none", None)}) or ["EventEnd"]
+        model["tt"] = [list(row) for row in model["tt"]] + [[r.choice(srcs), r.choice(evs), f_, "None", "None"] for f_ in finals]
+        oc.stat("fresh_process_cases_with_several_final_states")
     seeds = r.sample([0, 1, 2, 3, 5, 7, 11, 4242, 99991], 4)
     with scratch() as base:
         out = os.path.join(base, "out")
@@ -245,7 +254,7 @@ def run(tier):
     for i in range(40 if thorough else 6):
         if oc.violations:
             break
-        fresh_process_case(r, oc)
+        fresh_process_case(r, oc, directed=i % 2 == 1)
     settle(oc, reqs, pend)
     return finish(PROP, tier, proof, oc, t0, trusted=TRUSTED, search=search)
 
